@@ -18,6 +18,7 @@ package main
 import (
 	"fmt"
 	"math"
+	"os"
 	"sync"
 
 	"github.com/LiskHQ/lisk-engine/pkg/blockchain"
@@ -234,6 +235,13 @@ func runLiveness(k *mon.Case) {
 }
 
 func main() {
+	// A shard is restarted after every case that ended in a non-returning call (each costs the
+	// 30 s watchdog + 2 s); once the finding is recorded more of the same adds nothing, so the
+	// number of restarts is kept small.
+	maxRestarts := 6
+	if os.Getenv("VERIF_TIER") == "thorough" {
+		maxRestarts = 24
+	}
 	mon.Main(mon.Options{
 		Property: "C14",
 		Level:    "exploration",
@@ -248,14 +256,14 @@ func main() {
 			"transactions reach Add initialised (ID and size set), as blockchain.NewTransaction/Init guarantee",
 		},
 		RacePkgs:    []string{"txpool"},
-		MaxRestarts: 64,
+		MaxRestarts: maxRestarts,
 	}, func(c *mon.Ctx) {
 		senders()
 		c.Cases("scn", len(scenarios()), runScenario)
-		c.Cases("live", c.N(8, 32), runLiveness)
+		c.Cases("live", c.N(8, 16), runLiveness)
 		c.Cases("seq", c.N(4000, 150000), func(k *mon.Case) { runRandomSeq(k, c, false) })
 		c.Cases("ilv", c.N(1500, 50000), func(k *mon.Case) { runRandomSeq(k, c, true) })
-		c.Cases("conc", c.N(32, 480), func(k *mon.Case) { concInvariants(c, k) })
 		c.Cases("lin", c.N(80, 2000), func(k *mon.Case) { concLinearizable(c, k) })
+		c.Cases("conc", c.N(32, 480), func(k *mon.Case) { concInvariants(c, k) })
 	})
 }
